@@ -279,7 +279,7 @@ func genDepositHistory(t *rapid.T) DepositCase {
 			if rapid.IntRange(0, 7).Draw(t, "plain") > 0 {
 				st.Mut = 0
 			}
-			if st.Mut == mutDupInBatch || st.Mut == mutHeaderDup || st.Mut == mutCoinbaseLater {
+			if st.Mut == mutDupInBatch || st.Mut == mutHeaderDup || st.Mut == mutCoinbaseLater || st.Mut == mutTwinBadProof {
 				st.Mut = 0 // batch-level duplicates arise naturally from repeated items
 			}
 			b.Items = append(b.Items, st)
@@ -417,7 +417,7 @@ func runDepositHistory(c DepositCase) Outcome {
 				break
 			}
 			switch it.Mut % numDepMuts {
-			case mutDupInBatch, mutHeaderDup, mutDupMirror, mutDupOtherBlock, mutCoinbaseLater:
+			case mutDupInBatch, mutHeaderDup, mutDupMirror, mutDupOtherBlock, mutCoinbaseLater, mutTwinBadProof:
 				it.Mut = 0 // batch-level duplicates arise from repeated items and copied blocks
 			}
 			single, b, v, _ := f.buildAttempt(it)
